@@ -89,14 +89,14 @@ func (version Version) MarshalControl() (string, error) {
 
 func (v Version) StringWithoutEpoch() string {
 	result := v.Version
-	if len(v.Revision) > 0 {
+	if len(v.Revision) > 0 || strings.Contains(v.Version, "-") {
 		result += "-" + v.Revision
 	}
 	return result
 }
 
 func (v Version) String() string {
-	if v.Epoch > 0 {
+	if v.Epoch > 0 || strings.Contains(v.Version, ":") {
 		return fmt.Sprintf("%d:%s", v.Epoch, v.StringWithoutEpoch())
 	}
 	return v.StringWithoutEpoch()
